@@ -35,7 +35,7 @@ Deliver, in /tmp/out_{tag}/ :
   - patch.diff : output of `git -C {wt} diff` (the change only touches files under src/odfdo)
   - demo.py : a small standalone program (plain python, uses only odfdo + stdlib; it must run with PYTHONPATH pointing at a source tree) that exits 0 and prints OK on the ORIGINAL code and exits non-zero (assertion failure showing the wrong behaviour) on the patched code. It must demonstrate a violation of the property as stated, through the public API.
   - notes.md : 5-10 lines: what you changed, why the tests still pass, what exactly is needed for the defect to manifest.
-Verify yourself: run demo.py with the patch applied (must fail) and with the patch reverted via `git -C {wt} stash` / `git -C {wt} stash pop` (must pass), and run the full test suite with the patch applied (must pass). Leave the patch applied in the worktree when you finish. Report briefly what you did and the results of those three runs.
+Verify yourself: run demo.py with the patch applied (must fail) and with the patch reverted via `git -C {wt} diff > /tmp/out_{tag}/patch.diff && git -C {wt} apply -R /tmp/out_{tag}/patch.diff`, then re-applied with `git -C {wt} apply /tmp/out_{tag}/patch.diff` (must pass on the reverted tree; NEVER use `git stash`: the stash is shared with other worktrees of this repository), and run the full test suite with the patch applied (must pass). Leave the patch applied in the worktree when you finish. Report briefly what you did and the results of those three runs.
 If your first idea makes some existing test fail, pick a different one; try up to a handful of ideas. Produce exactly one final change.
 '''
 open(f"/tmp/prompt_{tag}.txt", "w").write(tmpl)
